@@ -14,6 +14,8 @@ import (
 // This is useful for evaluating Globals, or anything returned from parse.Expr.
 func EvalExpr(node ast.Node) (val data.Value, err error) {
 	state := &state{wr: ioutil.Discard}
+	// errors are reported relative to a template; give them one to refer to.
+	state.tmpl.Node = &ast.TemplateNode{Name: "(expression)"}
 	defer state.errRecover(&err)
 	state.walk(node)
 	return state.val, nil
